@@ -652,6 +652,7 @@ type ReqResult struct {
 	Public   string
 	Closed   bool
 	ProbeErr string
+	CloseErr string // the error the server closed the connection with (diagnostics only)
 }
 
 const probeCSeq = "777777"
@@ -717,6 +718,11 @@ func (in *instance) doReq(r Req) (ReqResult, error) {
 	}
 
 	out.Closed, out.ProbeErr = in.probe(cl, r.Method+" (CSeq "+r.CSeq+")")
+	if out.Closed && cl.rec != nil {
+		in.core.mu.Lock()
+		out.CloseErr = cl.rec.closeErr
+		in.core.mu.Unlock()
+	}
 	in.settle()
 	return out, nil
 }
